@@ -155,10 +155,12 @@ impl Config {
 }
 
 pub fn toml_value_from_str(string: &str) -> toml::Value {
-    let try_parse = toml::from_str::<toml::Value>(string);
+    // `toml::from_str` parses a whole document, so a bare value (`true`, `"name"`) is parsed as the
+    // right-hand side of a key and taken back out of the resulting table.
+    let try_parse = toml::from_str::<Table>(&format!("value = {string}"));
 
     // If there's an error parsing (because clap will not parse quotes, for example), we just treat what we're passed as a string:
-    if let Ok(out) = try_parse {
+    if let Ok(Some(out)) = try_parse.map(|mut table| table.remove("value")) {
         out
     } else {
         toml::Value::String(string.to_string())
